@@ -9,6 +9,9 @@ reverse:http://, reverse:https://, transparent, socks5.  Conversations: absolute
 ClientHello.  Peers: a real HTTP proxy peer (answers CONNECT, then hands the tunnel payload to an origin / TLS origin),
 real TLS servers (stdlib ssl over MemoryBIO) on the TLS ports, plain origins elsewhere.
 
+`upstream_auth` is also changed at RUNTIME between items of a conversation (injected driver action that fires once all
+earlier items are answered; later items are sent only afterwards); every credential ever configured in the case is searched.
+
 Monitor (M2, wire boundary, independent RFC 9112 reader + stdlib TLS as decryptor): the base64 credential and its raw
 user / password strings are searched in
   search.conn        every byte written to every upstream connection (ciphertext included),
@@ -34,10 +37,11 @@ LEVEL = "exploration"
 ENGINE = "sansio"
 BUDGET = {"quick": (350, 18), "thorough": (40000, 220)}
 WORKERS = {"quick": 4, "thorough": 16}
-REQUIRED = ["search.conn", "search.tunnel", "search.tls_plain", "cred.in_connect_head", "cred.in_plain_to_proxy", "cred.to_reverse_target", "forwarded.no_cred_expected"]
+REQUIRED = ["option_change.unset_to_set", "option_change.set_to_other", "option_change.set_to_unset", "option_change.applied", "search.conn", "search.tunnel", "search.tls_plain", "cred.in_connect_head", "cred.in_plain_to_proxy", "cred.to_reverse_target", "forwarded.no_cred_expected"]
 TECHNIQUE = "runtime monitoring: sans-io conversations with real addons, unique-token search on every wire / tunnel / decrypted stream"
 RULE = (
-    "case = (mode, upstream_auth on/off with a unique random credential, conversation of 1-4 items: plain absolute/origin-form "
+    "case = (mode, upstream_auth timeline: initially unset or a unique random credential, 0-2 runtime changes between items "
+    "(unset->set, set->other, set->unset; every credential a fresh unique token, ALL of them searched), conversation of 1-4 items: plain absolute/origin-form "
     "requests, https:// requests, CONNECT + tunnelled plain requests / raw bytes / TLS ClientHello, proxy CONNECT answer 200/407, "
     "connection_strategy, segmentation, schedule); signature = (mode, auth on, item kinds, connect answer, strategy, where the "
     "credential was seen); non-trivial iff upstream_auth is set and >= 1 tagged request or tunnel payload reached a peer"
@@ -201,14 +205,32 @@ def run_case(ctx, tctx, ua, chain):
     r = ctx.rng
     spec = build_case(r)
     mode, fam = spec["mode"], spec["fam"]
-    auth_on = r.random() < 0.92
-    user = "u" + "".join(r.choice(ALNUM) for _ in range(9))
-    pw = "p" + "".join(r.choice(ALNUM + ":@ ") if r.random() < 0.15 else r.choice(ALNUM) for _ in range(11))
-    cred = f"{user}:{pw}"
-    needles = [base64.b64encode(cred.encode()), user.encode(), pw.encode()]
+    needles = []  # every credential EVER configured in this case: base64 token, raw user, raw password
+
+    def fresh_cred():
+        user = "u" + "".join(r.choice(ALNUM) for _ in range(9))
+        pw = "p" + "".join(r.choice(ALNUM + ":@ ") if r.random() < 0.15 else r.choice(ALNUM) for _ in range(11))
+        c = f"{user}:{pw}"
+        needles.extend([base64.b64encode(c.encode()), user.encode(), pw.encode()])
+        return c
+
+    cred = fresh_cred() if r.random() < 0.8 else None
+    # runtime option changes between items of the conversation (console `set upstream_auth=...`, options API)
+    timeline = [cred]
+    changes = []  # (before item index, new value)
+    n_items = len(spec["items"])
+    if n_items >= 2 and r.random() < 0.5:
+        cur = cred
+        for j in sorted(r.sample(range(1, n_items), min(n_items - 1, r.choice([1, 1, 2])))):
+            new = fresh_cred() if cur is None or r.random() < 0.65 else None
+            ctx.count("option_change." + ("unset_to_set" if cur is None else "set_to_unset" if new is None else "set_to_other"))
+            changes.append((j, new))
+            timeline.append(new)
+            cur = new
+    auth_on = bool(needles)
     strategy = r.choice(["eager", "lazy"])
     connect_answer = r.choice([200, 200, 200, 200, 407])
-    tctx.options.update(upstream_auth=cred if auth_on else None, connection_strategy=strategy, ssl_insecure=True)
+    tctx.options.update(upstream_auth=cred, connection_strategy=strategy, ssl_insecure=True)
 
     by_tag = {it["tag"]: it for it in spec["items"] if it["tag"]}
 
@@ -247,10 +269,22 @@ def run_case(ctx, tctx, ua, chain):
     segs = []
     gated = r.random() < 0.6
     seen_gatepoint = False
-    for it in spec["items"]:
-        gate = None
-        if seen_gatepoint and gated:
-            gate = lambda drv: len(drv.out[client]) > 0
+    done = {"n": 0}
+    answering = [it["kind"].startswith(("plain-", "inner-http")) or it["kind"] == "connect" for it in spec["items"]]
+    for ci, (j, new) in enumerate(changes):
+        # the change happens once every earlier item has been answered; the items from j on are sent only afterwards
+        def fire(drv, new=new):
+            tctx.options.update(upstream_auth=new)
+            done["n"] += 1
+            return None
+
+        d.injected.append((f"set-upstream_auth-{ci}", fire, lambda drv, ci=ci, j=j: done["n"] == ci and bytes(drv.out[client]).count(b"HTTP/1.1 ") >= sum(answering[:j])))
+    for idx, it in enumerate(spec["items"]):
+        need = sum(1 for j, _ in changes if j <= idx)
+        g1 = (lambda drv: len(drv.out[client]) > 0) if (seen_gatepoint and gated) else None
+        gate = g1
+        if need:
+            gate = lambda drv, need=need, g1=g1: done["n"] >= need and (g1 is None or g1(drv))
         segs.append((it["raw"], gate))
         if it["kind"] in ("connect", "socks-greeting"):
             seen_gatepoint = True
@@ -260,6 +294,7 @@ def run_case(ctx, tctx, ua, chain):
     d.start()
     d.run()
     d.teardown()
+    ctx.count("option_change.applied", done["n"])
     if d.budget_exceeded:
         ctx.count("inconclusive_cases")
         return None
@@ -271,7 +306,7 @@ def run_case(ctx, tctx, ua, chain):
     target_addr = (TARGET_HTTPS if "https" in mode else TARGET_HTTP) if fam == "reverse" else None
     seen_where = set()
     reached = 0
-    witness = {"mode": mode, "upstream_auth": cred if auth_on else None, "strategy": strategy, "connect_answer": connect_answer,
+    witness = {"mode": mode, "upstream_auth_timeline": timeline, "option_changes_before_item": changes, "changes_applied": done["n"], "strategy": strategy, "connect_answer": connect_answer,
                "items": [(it["kind"], it["raw"][:120]) for it in spec["items"]], "hooks": d.hook_names()}
 
     def hit(data):
@@ -350,8 +385,8 @@ def run_case(ctx, tctx, ua, chain):
             scan_tunnel(conn, payload, getattr(inner_peer, "tunnel", None))
 
     kinds = tuple(it["kind"] for it in spec["items"])
-    sig = (mode.split("//")[0], auth_on, kinds, connect_answer if "connect" in kinds else None, strategy, tuple(sorted(seen_where)))
-    sample = {"mode": mode, "upstream_auth": cred if auth_on else None, "items": [it["kind"] for it in spec["items"]], "credential_seen_in": sorted(seen_where), "upstream_conns": [repr(c.address) for c in d.servers]}
+    sig = (mode.split("//")[0], tuple("set" if c else "unset" for c in timeline), tuple(j for j, _ in changes), kinds, connect_answer if "connect" in kinds else None, strategy, tuple(sorted(seen_where)))
+    sample = {"mode": mode, "upstream_auth_timeline": timeline, "option_changes_before_item": changes, "items": [it["kind"] for it in spec["items"]], "credential_seen_in": sorted(seen_where), "upstream_conns": [repr(c.address) for c in d.servers]}
     return sig, auth_on and reached > 0, sample
 
 
